@@ -121,6 +121,21 @@ def closed (a b : PT) (e : Axis) : Bool :=
   (b.cells.all (fun c => im.contains (c.1.headD 0))) &&
   (a.cells.all (fun c => !im.contains (c.1.getD 1 0) || im.contains (c.1.headD 0)))
 
+/-! ### the fuel side condition of the theorem `C09d.patsolve_cells`, decided per job -/
+
+/-- no identity is bound twice, and `FUEL - 2` units of fuel resolve every binding -/
+def resolvedS (σ : Subst) : Bool :=
+  nodupNat (σ.map (·.1)) && σ.all (fun p => Ei.unbound σ (clone σ (FUEL - 2) p.2))
+
+/-- the two unifications of `solve` (`e` against the row axis of `b`; the renamed copy of `e` and `e` against the row and
+column axes of `a`) did not exhaust the fuel -/
+def resolved (fuel : Nat) (e : Axis) (nx : Nat) (a0 a1 b0 : Axis) (brest : List Axis) : Bool :=
+  let fv := firstOcc [e]
+  let ren0 := fv.zipIdx.map (fun (p : (Nat × Nat) × Nat) => (p.1.1, nx + p.2))
+  let stb := (unify fuel e b0 ⟨[], nx + fv.length + (firstOcc brest).length⟩).2
+  let sta := (unifyAll fuel [(renameAxis ren0 e, a0), (e, a1)] ⟨[], stb.next⟩).2
+  resolvedS stb.subst && resolvedS sta.subst
+
 /-! ### protocol -/
 
 def handle : List String → Option (Except String String)
@@ -132,9 +147,9 @@ def handle : List String → Option (Except String String)
         | "bool" => pure (Ei.boolExtSR, fun _ => Ext.fin 1)
         | _ => throw "bad semiring"
       let cl : Bool := match a.vaxes, b.vaxes with
-        | [a0, a1], b0 :: _ =>
+        | [a0, a1], b0 :: brest =>
           (match grow FUEL a0 a1 64 b0 next with
-           | some (some (e, _)) => closed a b e
+           | some (some (e, nx)) => closed a b e && resolved FUEL e nx a0 a1 b0 brest
            | _ => true)
         | _, _ => true
       match solve S star FUEL 64 a b next with
